@@ -121,7 +121,8 @@ Section Framed.
   (** what the body decoders must satisfy (proved for MQTT 3.1.1 in V4TotalProofs.v) *)
   Hypothesis body_no_panic : forall h frame t,
     len frame = frame_length h -> 2 <= fixed_header_len h -> body h frame <> Panic t.
-  Hypothesis body_no_insufficient : forall h frame k, body h frame <> Err (InsufficientBytes k).
+  Hypothesis body_no_insufficient : forall h frame k,
+    len frame = frame_length h -> body h frame <> Err (InsufficientBytes k).
 
   (** every result of [read_framed], classified *)
   Inductive framed_spec (bs : list N) (max : N) : read_result P -> Prop :=
@@ -155,7 +156,7 @@ Section Framed.
           destruct (body h (firstn (N.to_nat (frame_length h)) bs)) as [p | e | t] eqn:Hb.
           -- eapply FS_packet; [exact Hp | lia | symmetry; exact Hsplit | exact Hlf | exact Hb].
           -- destruct e; try (eapply FS_malformed; [exact Hp | lia | symmetry; exact Hsplit | exact Hlf | exact Hb]).
-             exfalso. exact (body_no_insufficient _ _ _ Hb).
+             exfalso. exact (body_no_insufficient _ _ _ Hlf Hb).
           -- exfalso. apply (body_no_panic h _ t Hlf); [| exact Hb].
              pose proof (pfh_ok_bounds _ _ Hp). lia.
     - destruct (pfh_err _ _ Hp) as [-> | (k & -> & Hk & Hl)].
@@ -243,7 +244,7 @@ Section Framed.
       rewrite !len_app. replace (len frame + len rest + len more <? frame_length h) with false by lia.
       rewrite split_to_ok by (rewrite !len_app; lia).
       destruct (firstn_app_exact frame rest more (frame_length h) Hlf) as [-> ->].
-      rewrite Hbody. destruct e; try reflexivity. exfalso. exact (body_no_insufficient _ _ _ Hbody).
+      rewrite Hbody. destruct e; try reflexivity. exfalso. exact (body_no_insufficient _ _ _ Hlf Hbody).
   Qed.
 End Framed.
 
